@@ -162,6 +162,7 @@ class Cap(object):
         self.notes = []
         self.seen_obl = {}
         self.peeling = False
+        self.loop_stack = []
 
     # ------------------------------------------------------------------ obligations
     def oblige(self, st, kind, node, goal, detail, fn=None):
@@ -1841,6 +1842,7 @@ class Cap(object):
                 out["ret"].append(st)
             return out
         if k == "break":
+            self.on_break(n, st)
             out["brk"].append(st)
             return out
         if k == "continue":
@@ -1944,7 +1946,18 @@ class Cap(object):
                             locs.add(inner["d"])
         return locs, fields
 
+    def on_break(self, n, st):
+        """hook: a `break` is about to leave the innermost loop (self.loop_stack[-1]) in state st"""
+        return None
+
     def exec_loop(self, n, st):
+        self.loop_stack.append(n)
+        try:
+            return self._exec_loop(n, st)
+        finally:
+            self.loop_stack.pop()
+
+    def _exec_loop(self, n, st):
         out = {"norm": [], "brk": [], "cont": [], "ret": []}
         k = n["k"]
         states = [st]
